@@ -30,7 +30,8 @@ Fails(sc, f) ==
   \/ f.cls = "verifyfail" /\ sc.verify /\ sc.sortreq
   \/ f.cls = "readonly" /\ sc.priv /\ sc.mode = "write"
 Differs(sc, f) ==
-  \/ f.cls \in {"unformatted", "unformatted_multi", "readonly", "crlf"}   \* "crlf": only the line terminators differ
+  \/ f.cls \in {"unformatted", "unformatted_multi", "readonly", "crlf", "nonl"}   \* "crlf": only the line terminators differ; "nonl": only the final newline is missing
+  \* (class "empty", a zero-byte file, neither fails nor differs: its formatted form is empty)
   \/ f.cls = "unreadable" /\ ~sc.priv
   \/ f.cls = "verifyfail" /\ sc.sortreq
 
